@@ -28,7 +28,7 @@ RULE = (
     "takes the whole slice), 'generated' = 4-8 Hypothesis-built documents per batch assembled from ONE shared pool "
     "of primitives, paints (round/square caps, joins, dashes, opacity, style= spelling), gradients (templates, "
     "percent/userSpaceOnUse, ids that look like generated ids), transforms; bodies contain shapes, groups with "
-    "inherited attributes, <use>, clip paths, nested <svg>, <text>/<tspan> (passed through with allow_text), "
+    "inherited attributes and typography / unknown attributes (font-size, font-family, letter-spacing, class, ...), <use>, clip paths, nested <svg>, <text>/<tspan> (passed through with allow_text), "
     "editor noise and unknown elements; about 40% of the documents are variants of an earlier document of the "
     "batch (same body, other viewBox) and 0-2 repo files are mixed in. Per-document options: ndigits, allow_text, "
     "drop_unsupported, pretty_print, clip_to_viewbox. Configurations per case: 1-2 long-lived interpreters, each "
